@@ -128,9 +128,25 @@ def gen_case(rng, plain=False, fam=None):
                 return f", #tsl.tsl<[{n // 4}, 4] -> ({rng.choice([4, 8])}, 1){rng.choice(['', '', ', offset: 4'])}>"
             return ""
         lays = [lay() for _ in range(3)]
+        dims = "d0, d1" if rank2 else "d0"
+        if not plain and rng.random() < 0.25:
+            # dense operands stored in different dimension orders (each one folds on its own; together they only do when the
+            # streamers walk them in the SAME order): mostly refused by the unmodified compiler
+            shape = rng.choice([[4, 2, 3], [2, 3, 4], [8, 8], [4, 8], [8, 4], [2, 2, 4], [4, 3, 2], [3, 4], [4, 4, 2]])
+            def dense(order):
+                st, acc = [0] * len(shape), 1
+                for d in order:
+                    st[d] = acc
+                    acc *= shape[d]
+                return st
+            orders = [rng.sample(range(len(shape)), len(shape)) for _ in range(2)]
+            lays = []
+            for _ in range(3):
+                st = dense(rng.choice(orders))
+                lays.append("" if st == rowmajor(shape) and rng.random() < 0.5 else f", strided<[{', '.join(str(x) for x in st)}]>")
+            dims = ", ".join(f"d{i}" for i in range(len(shape)))
         shp = "x".join(str(s) for s in shape)
         ts = [f"memref<{shp}xi64{l}>" for l in lays]
-        dims = "d0, d1" if rank2 else "d0"
         text = f"""builtin.module {{
 func.func public @f(%a : {ts[0]}, %b : {ts[1]}, %c : {ts[2]}) {{
   "dart.operation"(%a, %b, %c) <{{patterns = [affine_map<({dims}) -> ({dims})>, affine_map<({dims}) -> ({dims})>, affine_map<({dims}) -> ({dims})>], accelerator = "snax_alu", operandSegmentSizes = array<i32: 2, 1>}}> ({{
@@ -223,6 +239,7 @@ REFUSALS = (NotImplementedError, RuntimeError, StopIteration)
 def build_cases(text, acc, setlayout, name, rep):
     from snaxc.dialects import dart, snax_stream
     from snaxc.ir.dart.affine_transform import AffineTransform
+    from xdsl.utils.exceptions import VerifyException
     ctx = repo.opt_main().ctx
     m = repo.parse(text)
     m.verify()
@@ -241,7 +258,9 @@ def build_cases(text, acc, setlayout, name, rep):
                      [o.type for o in sch.operands], list(sch.operands), tmpl, tmpl.num_dims))
     try:
         repo.run_pipeline(m, "dart-layout-resolution,convert-dart-to-snax-stream")
-    except REFUSALS as e:
+    except REFUSALS + (AssertionError, VerifyException) as e:
+        # the conversion's own `assert spat_size % bound == 0`, or the verifier of the streaming region that snax-opt runs
+        # after the pass ("Temporal stride pattern exceeds streamer dimensionality"): no configuration leaves the compiler
         rep.refused += 1
         rep.extra.setdefault("refusal_reasons", {})
         k = f"{type(e).__name__}: {str(e)[:60]}"
